@@ -129,13 +129,14 @@ N_PD_TOTAL = {"stem": "ptrace_dumper", "filter": "c02", "tiers": Q, "tests": {
     "c02_short_stack_copy_does_not_panic": H("B'", "MappingInfo::stack_has_pointer_to_mapping", "stack copies of 0..=7 bytes"),
 }}
 N_TLS = {"stem": "thread_list_stream", "filter": "", "tiers": Q, "tests": {
-    "bprime_stack_region_for_every_sp_offset": H("B'", "fill_thread_stack (on this process's own memory)", "516 in-page sp offsets x {no limit, 2 KiB limit} + 3 sp positions below the mapping"),
+    "bprime_stack_region_for_every_sp_offset": H("B'", "fill_thread_stack (on this process's own memory)", "516 in-page sp offsets x {no limit, 2 KiB limit} + 8 sp positions below the mapping x {no limit, 2 KiB limit}"),
+    "c06_no_plausible_mapping_within_guard_distance_gives_an_empty_stack": H("B'", "fill_thread_stack / get_stack_info", "sp inside a 3 MiB inaccessible region, with and without the limit"),
     "c20_ip_at_end_of_principal_mapping_is_outside": H("B'", "fill_thread_stack", "ip == end of the principal mapping, all-zero stack"),
 }}
 N_C09 = {"name": "c09_dest", "tiers": Q, "tests": {
     "bprime_destination_equals_image_for_every_short_history": H("B'", "DirSection (real std::io::Cursor)", "every sequence of <= 4 ops from 5 kinds x 3 start offsets x 3 prefills")}}
 N_LIVE_PREFIX = {"name": "c10_live_prefix", "tiers": Q, "tests": {
-    "every_prefix_of_a_real_dump_is_consistent": H("B'", "MinidumpWriter::dump on a live child into a destination that snapshots after every write and injects a write failure at every position", "one child, pre-filled 32-byte file, start 9, every write index")}}
+    "every_prefix_of_a_real_dump_is_consistent": H("B'", "MinidumpWriter::dump on a live child into a destination that checks itself after every write; a persistent failure from every write index on, and a ONE-SHOT failure of every destination operation (write or seek)", "one child, pre-filled 32-byte file, start 9, every write index and every operation index")}}
 N_LIVE_NOATTACH = {"name": "c10_live_prefix", "tiers": Q, "tests": {
     "dump_succeeds_when_no_thread_can_be_attached": H("B'", "MinidumpWriter::dump on a child whose threads are all already traced by another process", "one child")}}
 N_C06_LIVE = {"name": "c06_limit", "tiers": Q, "tests": {
@@ -145,7 +146,7 @@ N_C07_LIVE = {"name": "c07_ip_window", "tiers": Q, "tests": {
     "ip_window_is_clipped_to_the_mapping_that_contains_ip": H("B'", "MinidumpWriter::dump with crash contexts whose ip is inside / on the last byte / on the first byte of adjacent mappings / unmapped", "5 instruction pointers on one live child")}}
 TWINS_STACK = {
     "fill_thread_stack": ["native:thread_list_stream::bprime_stack_region_for_every_sp_offset", "native:thread_list_stream::c20_ip_at_end_of_principal_mapping_is_outside"],
-    "get_stack_info": ["native:ptrace_dumper::c02_get_stack_info_top_of_address_space"],
+    "get_stack_info": ["native:thread_list_stream::c06_no_plausible_mapping_within_guard_distance_gives_an_empty_stack", "native:ptrace_dumper::c02_get_stack_info_top_of_address_space"],
     "app_memory_write": ["kani:vk_app_memory_two_regions"],
     "find_mapping": ["kani:vk_find_mapping_2"],
     "may_be_stack": ["kani:vk_may_be_stack_rule"],
